@@ -112,7 +112,15 @@ func c19Check(cs c19Case) (ok bool, sig, expected, observed string) {
 					fail = "illegal-token-position-outside-source"
 				}
 			}
-			_ = s
+			// an ILLEGAL token that stands on a byte of the source carries exactly that byte as its text
+			// (the one raised at the end of the input, for something unterminated, has no byte to carry)
+			if okS && s < len(src) && fail == "" {
+				e, okE := offsetOf(t.Pos.EndLine, t.Pos.EndCol)
+				if okE && e == s && t.Literal != src[s:s+1] {
+					fail = "illegal-token-text-differs-from-source"
+					observed = describe(t) + fmt.Sprintf(", the source has %q there", src[s:s+1])
+				}
+			}
 			break
 		}
 		if t.Type == token.EOF {
